@@ -27,7 +27,7 @@ def jobs_for(u, tier, known):
     """A unit expands into jobs: the main run, and for a unit with an open known finding the pair
     (confirm: restricted to the finding's inputs, expected to fail; main: those inputs excluded)."""
     jobs = []
-    kfs = [k for k in known["findings"] if k.get("unit") == u["name"] and k.get("status") == "open"]
+    kfs = [k for k in known["findings"] if k.get("unit") == u["name"] and k.get("status") == "open" and k.get("mode", "input") == "input"]
     if kfs:
         jobs.append(("main", ["VF_KF_EXCLUDE"], None))
         for k in kfs:
@@ -92,6 +92,22 @@ def main():
             r["known_finding"] = kf["id"]
             unit_records.append(r)
             continue
+        # known findings identified by call site + obligation (mode "obligation"): the listed obligations of this unit
+        # are reported as KNOWN-FINDING; every other failed obligation of the unit is still a violation
+        okfs = [k for k in known["findings"] if k.get("unit") == u["name"] and k.get("status") == "open" and k.get("mode") == "obligation"]
+        if okfs and r["verdict"] in ("violated", "proved"):
+            for k in okfs:
+                pat = re.compile(k["obligation_re"])
+                hit = [f for f in r["failed"] if pat.search(f["id"]) or pat.search(f["description"] or "")]
+                if hit:
+                    known_lines.append("KNOWN-FINDING: property=%s %s" % (k["property"], k["what"]))
+                    r["failed"] = [f for f in r["failed"] if f not in hit]
+                    r.setdefault("known_finding_obligations", []).extend(f["id"] for f in hit)
+                    r["obligations"] -= len(hit)
+                else:
+                    notes.append("known finding %s no longer reproduces in unit %s (defect gone?)" % (k["id"], u["name"]))
+            if r["verdict"] == "violated" and not r["failed"]:
+                r["verdict"] = "proved"
         unit_records.append(r)
         if r["verdict"] == "violated" and u.get("confirm_with"):
             # a code-shaped contract failed: the code's formula changed.  Whether the PROPERTY is violated is
@@ -176,6 +192,8 @@ def main():
         os.makedirs(os.path.join(VERIF, "evidence"), exist_ok=True)
         json.dump(ev, open(os.path.join(VERIF, "evidence", a.prop + ".json"), "w"), indent=1)
 
+    # findings of OTHER properties that shared units carry are still excluded/confirmed above, but are announced by their own property's check
+    known_lines = [l for l in dict.fromkeys(known_lines) if ("property=%s " % a.prop) in l]
     for l in known_lines:
         print(l)
     for n in notes:
